@@ -13,6 +13,7 @@ per (property, key): number of evaluations, worst error, tolerance, and the firs
     integrate  C19  Behavior.Integrate: arguments untouched, outputs finite where converged, p never decreases
     fearray    C12  FeArray @ / dot / ddot between two fields: the pointwise product at sampled (element, point) pairs
     timestep   C05  every solve under a time scheme: stored rates follow the documented scheme; equation of motion on free dofs (linear kinds)
+    phasefield C17  split parts finite and adding up to the undamaged stress / energy; history energy / damage monotone between saved steps
     history    C15  stored iterations keep the digest they were saved with; the entry just saved holds the live primary fields
 """
 
@@ -579,13 +580,115 @@ def install_history(sample=2, limit=400_000):
     _Simu.Set_Iter = Set_Iter
 
 
+# ------------------------------------------------------------------------------------------
+def install_phasefield(every=5, limit=60000):
+    """Phase-field splits and irreversibility under any workload: the two parts returned by a split are finite and add up to
+    the undamaged stress / energy of the strain they were given; from one Save_Iter to the next on the same simulation (no
+    restore, no new mesh in between) the history energy (History solver) and the nodal damage (damage-based solvers) do
+    not decrease."""
+    import weakref
+
+    from EasyFEA.Models._phasefield import PhaseField as Model
+    from EasyFEA.Simulations._phasefield import PhaseField as Simu
+    from EasyFEA.Simulations._simu import _Simu
+
+    count = [0]
+
+    def undamaged(model, eps):
+        C = np.asarray(model.material.C, float)
+        e = np.asarray(eps, float)
+        if C.ndim == 3:
+            C = C[:, None]
+        sig = np.einsum("...ij,...j->...i", C, e)
+        return sig, 0.5 * np.einsum("...i,...i->...", sig, e)
+
+    def wrap(name, kind):
+        orig = getattr(Model, name)
+
+        @guarded("phasefield")
+        def look(model, eps, out):
+            e = np.asarray(eps, float)
+            if e.size > limit or e.ndim != 3:
+                return
+            a, b = (np.asarray(x, float) for x in out)
+            split = str(model.split)
+            k = f"C17/suite/{split}/{model.dim}D/{kind}"
+            fin = bool(np.isfinite(a).all() and np.isfinite(b).all())
+            LOG.check("C17", "finite", k + "/finite", 0.0 if fin else np.inf, 0.0, n=int(e.shape[0] * e.shape[1]))
+            if not fin:
+                return
+            sig, psi = undamaged(model, e)
+            want = sig if kind == "stress" else psi
+            Cn = np.abs(np.asarray(model.material.C)).max()
+            en = np.sqrt(np.einsum("...i,...i->...", e, e)).max()
+            sc = (Cn * en if kind == "stress" else Cn * en * en) + 1e-300
+            LOG.check("C17", "partition-" + kind, k + "/sum", np.abs(a + b - want).max() / sc, 1e-9)
+
+        def method(self, eps, *a, **kw):
+            out = orig(self, eps, *a, **kw)
+            if not _inside[0]:
+                count[0] += 1
+                LOG.call("split-calls")
+                if count[0] % every == 1:
+                    look(self, eps, out)
+            return out
+
+        setattr(Model, name, method)
+
+    wrap("Calc_psi_e_pg", "energy")
+    wrap("Calc_Sigma_e_pg", "stress")
+
+    prev: "weakref.WeakKeyDictionary" = weakref.WeakKeyDictionary()
+    o_save, o_set = Simu.Save_Iter, Simu.Set_Iter
+    o_mesh = _Simu.mesh
+
+    @guarded("phasefield")
+    def after_save(simu):
+        res = simu.Get_results(simu.Niter - 1)
+        solver = str(simu.phaseFieldModel.solver)
+        regu = str(simu.phaseFieldModel.regularization)
+        cur = {"mesh": id(simu.mesh), "Niter": simu.Niter, "d": np.array(res["damage"], float, copy=True),
+               "H": {str(k_): np.array(v_, float, copy=True) for k_, v_ in (res.get("psiP_history") or {}).items()}}
+        p = prev.get(simu)
+        prev[simu] = cur
+        if p is None or p.get("broken") or p["mesh"] != cur["mesh"] or p["Niter"] + 1 != cur["Niter"]:
+            return
+        k = f"C17/suite/{solver}/{regu}"
+        if solver == "History":
+            for g, H in cur["H"].items():
+                H0 = p["H"].get(g)
+                if H0 is None or H0.shape != H.shape:
+                    continue
+                LOG.check("C17", "history-monotone", k + "/history-field", float(np.max(H0 - H)) / (np.abs(H0).max() + 1e-300), 1e-12, Niter=cur["Niter"])
+        else:
+            if p["d"].shape == cur["d"].shape:
+                LOG.check("C17", "damage-monotone", k + "/nodal-damage", float(np.max(p["d"] - cur["d"])), 1e-10, Niter=cur["Niter"])
+
+    def Save_Iter(simu, *a, **k):
+        out = o_save(simu, *a, **k)
+        if not _inside[0]:
+            LOG.call("phasefield-saves")
+            after_save(simu)
+        return out
+
+    def Set_Iter(simu, *a, **k):
+        out = o_set(simu, *a, **k)
+        if not _inside[0] and simu in prev:
+            prev[simu]["broken"] = True  # the next saved step does not follow the previous saved one
+        return out
+
+    Simu.Save_Iter = Save_Iter
+    Simu.Set_Iter = Set_Iter
+    _ = o_mesh
+
+
 INSTALLERS = {"law": install_law, "assembly": install_assembly, "bc": install_bc, "stale": install_stale, "integrate": install_integrate,
-              "fearray": install_fearray, "timestep": install_timestep, "history": install_history}
+              "fearray": install_fearray, "timestep": install_timestep, "history": install_history, "phasefield": install_phasefield}
 
 
 def install(names, out_path):
     # order matters: 'stale' counts assemblies through whatever wraps Assembly before it
-    for n in ["law", "assembly", "bc", "timestep", "integrate", "fearray", "history", "stale"]:
+    for n in ["law", "assembly", "bc", "timestep", "integrate", "fearray", "phasefield", "history", "stale"]:
         if n in names:
             try:
                 INSTALLERS[n]()
